@@ -470,23 +470,33 @@ func (r *Reader) traverseNodeFiltered(n *html.Node, ctx *parseContext, elements 
 
 		case "li":
 			if ctx.inList {
-				// Get direct text content, not nested lists
-				text := getDirectTextContent(n)
-				if text != "" {
-					ctx.listItems = append(ctx.listItems, listItem{
-						Text:    text,
-						Level:   ctx.listLevel,
-						Ordered: ctx.listOrdered,
-					})
+				// Walk the children in document order. Text and any non-list
+				// content (inline elements, paragraphs, block quotes, ...) make up
+				// the item's text; a nested list ends the text collected so far
+				// and is traversed one level deeper, so text that follows it stays
+				// after it.
+				var text strings.Builder
+				flushItem := func() {
+					if t := strings.TrimSpace(text.String()); t != "" {
+						ctx.listItems = append(ctx.listItems, listItem{
+							Text:    t,
+							Level:   ctx.listLevel,
+							Ordered: ctx.listOrdered,
+						})
+					}
+					text.Reset()
 				}
-				// Check for nested lists
-				ctx.listLevel++
 				for c := n.FirstChild; c != nil; c = c.NextSibling {
 					if c.Type == html.ElementNode && (c.Data == "ul" || c.Data == "ol") {
+						flushItem()
+						ctx.listLevel++
 						r.traverseNodeFiltered(c, ctx, elements)
+						ctx.listLevel--
+						continue
 					}
+					getTextContentRecursive(c, &text)
 				}
-				ctx.listLevel--
+				flushItem()
 			}
 			return
 
